@@ -3,9 +3,32 @@ in MANIFEST.json.  Properties that DESIGN.md claims but whose check is not yet
 committed are listed in NOT_CLAIMED_YET so that MANIFEST.not_applicable stays
 current at every commit."""
 
-CHECKS = {}
+CHECKS = {
+    "C07": {
+        "engine": "simkit", "level": "fault_enumeration", "design_ref": "DESIGN.md section 4 (C07), sections 2.3-2.8",
+        "technique": "deterministic simulation with fault injection: real SimulationRunner on a virtual clock and an in-memory crash-consistent disk, seeded crash/kill/IO-error/torn-write at every seam event and source line, restart on surviving state, reference runner as oracle",
+        "text": ("Seeded search over crash schedules: thousands of plans per run, each 1-4 process incarnations of the real runner ended by one injected fault "
+                 "(hard kill, soft interrupt, OSError, torn write with a surviving prefix) at a seam event (clock read, user callback, disk operation) or at a "
+                 "source-line event inside pyphysim/simulations, then a fault-free restart; plus per-scenario sweeps that enumerate EVERY seam event (thorough: "
+                 "every line event too) of the scenario's first incarnation. After every incarnation the call trace must equal the reference runner started from "
+                 "what the disk durably holds, every partial file must be self-consistent, durably saved work must not disappear, foreign partial files must be refused, "
+                 "and the final results (object and file) must hold each repetition exactly once. Evidence, not proof: enumeration is complete only per sampled scenario."),
+        "note": ("Trusted: the fakes (SimDisk process-crash semantics: OS-level bytes survive, user-space buffers die on hard kill; no power-loss model), the 60-line reference runner, "
+                 "pickle as trusted reader of surviving files, the library's public file-naming helper. Not run: simulate_in_parallel (ipyparallel missing), progress bars."),
+    },
+    "C05": {
+        "engine": "simkit", "level": "exploration", "design_ref": "DESIGN.md section 4 (C05)",
+        "technique": "deterministic simulation: scripted user program (skips, stop rules, durations) on virtual clock and simulated disk, histories of simulate calls, call-for-call comparison with a reference runner",
+        "text": ("Seeded exploration of programs and histories: grids of 0-3 unpacked parameters (ints, floats, strings, numpy arrays), rep_max incl. around the 500-repetition save period, "
+                 "four families of stop rules, arbitrary skip patterns (incl. the first repetition), clock jumps, and histories of simulate()/simulate(i)/rep_max changes. "
+                 "Oracle after every call: the exact sequence of parameter combinations handed to the user iteration, runned_reps, the per-variation merge of exactly the successful "
+                 "repetitions (unique serial per repetition), every look-up by fixed values for every subset of the unpacked parameters, and the saved results file."),
+        "note": "Trusted: reference runner, fakes. No faults are injected here (C07 does). The number of _keep_going calls and all timing are unconstrained by design.",
+    },
+}
 
+_PENDING = ["C03", "C06", "C08", "C10", "C13", "C14", "C15"]
 NOT_CLAIMED_YET = {
-    pid: "claimed in DESIGN.md (history/crash property, simulation target) but its check is not committed yet; not claimed until it is"
-    for pid in ["C03", "C05", "C06", "C07", "C08", "C10", "C13", "C14", "C15"]
+    pid: "claimed in DESIGN.md (history property, simulation target) but its check is not committed yet; not claimed until it is"
+    for pid in _PENDING if pid not in CHECKS
 }
